@@ -21,7 +21,7 @@ Contents
 5. Genuine defects found on the pinned tree, their repair, the one known finding
 6. Limits, honest non-coverage, tooling limits, known false-alarm surface
 7. Interface (commands, exit codes, evidence, known findings, thorough tier)
-8. Validation of the machinery: nine rounds of seeded mutations, controls, nine
+8. Validation of the machinery: ten rounds of seeded mutations, controls, ten
    rounds of behaviour-preserving refactorings; which check catches which change;
    what was missed; false alarms met and how they were removed
 
@@ -111,7 +111,7 @@ on `stream.Merge`, i.e. on the same defect the ownership rule found (F2).
 /verif/evidence/Cnn.json   rewritten by every run
 /verif/reports/            violation reports named in "VIOLATION … replay=<path>" (git-ignored)
 /verif/controls/Cnn/*.diff 121 one-line control edits (tools/gen_controls.py)
-/verif/seeded/*/           520 sub-agent mutations with demonstration tests and meta.json
+/verif/seeded/*/           580 sub-agent mutations with demonstration tests and meta.json
 /verif/refactorings/*/     behaviour-preserving refactorings used as false-alarm tests
 /verif/tools/              baseline.sh, seed_import.sh, seed_confirm.sh, seed_run.sh, ref_run.sh, ref_all.sh, regress.sh,
                            gen_manifest.py, gen_matrix.py, gen_design.py, validate.py
@@ -250,6 +250,28 @@ thorough ≈ 10–20 s per property.
   *Must-held lockset rules over whole packages*: no Lock / RLock of a mutex that
   is certainly held along the static call chain (`no-recursive-lock`), no channel
   operation / WaitGroup.Wait with a mutex held.
+* **Round-10 additions.** *Flag-selected helpers everywhere*: constant boolean
+  arguments select the live part of a callee not only in typestate summaries but in
+  every deep view and in the typestate engine's visits (`withChainFlags`,
+  `blocksReachableUnder`): `offer(ctx, x, wait)` is `Send`'s select for one caller
+  and `TrySend`'s for the other. *Final function variables*
+  (`bindFinalFuncGlobals`): an unexported package-level function variable set once in
+  its declaration and never assigned or address-taken is another name for the
+  function; calls through it are re-pointed at the callee before any rule runs.
+  *Correlated results*: where the boolean result of a helper is true, its other
+  result is what the one `return …, true` yields, under that return's guards; one of
+  several results of a constructor is followed like a single one. *Field-wise struct
+  flow* (`structFieldLeaves`): a local struct variable whose fields are assigned one
+  by one, passed by value to a method (through the spill of a value receiver).
+  *State fields by role* (`stateEnumOf`): two boolean flags folded into one field of
+  a named integer type. *Nested state*: fields of structs nested by value belong to
+  the outer struct (`fieldBaseIs`); a wrapper held under its own concrete type by the
+  returned wrapper is the latter's to close (`enclosingReturnedAlloc`,
+  `ownsStreams`); cancel-then-wait may live in a method of a state type. *Merged
+  stores and returns*: a store (return) of a merge is judged per alternative on the
+  edge it arrives over. *Unlock balance* (`unlock-held`): on the must-held lockset of
+  each function, every release of a mutex the function locked itself finds it held,
+  and no return leaves it held.
 * **Effects** (`effects.go`). May a function write through a slice/map argument?
   (stores, map updates, copy/append/clear/delete, sort and `slices.*` writers,
   module callees, closures; fix-point).
@@ -348,8 +370,9 @@ refactorings after three rounds of hardening) 44 of 80 still alarmed at first, s
 the honest expectation for an unseen restructuring of an anchored function is
 "about even" - rounds 5 (46 of 80) and 6 (40 of 80) confirmed it; round 7 (31 of
 80) was better, round 8 (36 of 80, right after thirty new rules) and round 9 (40 of 80) were
-not. Of the 641 kept refactorings (rounds 1-9) 628 are quiet today; 13 (two of round 6, six of
-round 8, five of round 9) still alarm and are documented as open in section 8.3. The mirror and
+not; round 10 (32 of 80) was better again. Of the 721 kept refactorings (rounds 1-10) 704 are
+quiet today; 17 (two of round 6, six of round 8, five of round 9, four of round 10) still alarm and
+are documented as open in section 8.3. The mirror and
 lockstep rules would fire on an asymmetric-but-equivalent rewrite of one twin.
 Refactorings that rename exported API or change a struct's field *types* are
 outside the rename normalisation.
@@ -400,7 +423,7 @@ the clean tree, patch applies and builds, demo fails with the patch, suite
 passes twice with the patch) before it was kept under `/verif/seeded/<id>/`
 (`patch.diff`, `zz_seed_demo_test.go`, `meta.json`), and each was then applied
 to `/repo` itself, checked, and undone (`tools/seed_confirm.sh`, recorded in
-`meta.json: check_against_repo`). 520 kept (40 in round 1, 60 in each of rounds 2-9).
+`meta.json: check_against_repo`). 580 kept (40 in round 1, 60 in each of rounds 2-10).
 
 * Round 1 (40): all caught by the rules that existed when each seed arrived,
   several of which (`C03.split-halves` rewrite direction, `C19.tail-cleared`
@@ -615,8 +638,51 @@ to `/repo` itself, checked, and undone (`tools/seed_confirm.sh`, recorded in
   `fillFrom`); each was removed by
   following the helper / the embedded struct (`releasedByCallee`).
 
+* Round 10 (60, after the round-10 refactoring hardening; prompts listed all
+  twenty-six earlier mutations per property): **42 caught at once, 18 missed**.
+  (a) *sibling property*: `C08.publish-before-signal` (from C10: `PipeSender.Close`
+  stores the error before it closes `senderDone` - Merge reports an input's error
+  through that pipe), `C01.thresholds` (from C03: `removeRightmost` reports the leaf
+  it drained), `C04.resize-bumps-gen` (from `C15.gen-bump.deque`, for Grow / Shrink:
+  `Iterate` is part of C04's histories). (b) *every path / every instance*: the
+  index callback of `NewPriorityQueue` stores unconditionally (`if h.m[x.K] != i`
+  reads an absent key as 0 and drops the first notification for slot 0); no way
+  through `PriorityQueue.Update` avoids both `UpdateAt` and `Push` (a "same priority"
+  shortcut compares with `==`: panic for an uncomparable P, identity for a pointer
+  P); `PriorityQueue.Len` is the inner heap's (the key map over-counts NaN keys);
+  `C11.elapsed-direction` is now a must-pass (`else if timer == nil { startTimer() }`
+  left a way through the branch without arming); `C16 … every-signal-sends` (no
+  condition in front of Signal's send: a "wake-up pending" flag beside the channel
+  goes stale when Broadcast replaces the channel); `C15 … every-return-watches` (every
+  return of `Iterate` hands out an object that holds the container - not
+  `iterator.Slice(d.a[front:back+1])` for an unwrapped deque);
+  `C02 … slot-read-for-every-node` (`lost()` compares the slot under no test of the
+  node's kind); `C02/C01.range-wrappers-live` extended to `btree.Range` /
+  `RangeReverse` themselves (no early `Empty()` for a tree that is empty now);
+  `C17 … trigger-is-nonblocking-send` (the trigger function does nothing but the send:
+  `g.Do(f)` in its default branch runs f beside the worker);
+  `C20 … no-extra-condition` (no further test of d in front of the deadline test).
+  (c) *new necessary conditions*: `C16/C17/C20.unlock-held` (on the must-held lockset
+  of each function: a release - written out or deferred - of a mutex the function
+  locked itself finds it held, and no return leaves it held: the double unlock on the
+  stale path of the timer callback, the read lock leaked on `spawn`'s refusing path),
+  `C03/C01.insert-where-searched` (typestate in `Put`: no structural change between
+  the search that placed the key and the insertion that is handed it - a rotation "to
+  avoid the split" moves the separator past the key), `C04.wrapped-copy-nonempty` (in
+  `resize` the new buffer is sliced at an offset computed from the old length only
+  under a test that the deque holds items - an empty deque reads as "wrapped" too),
+  `C19.sort-wrappers` (`xsort.Slice` / `SliceStable` / `SliceIsSorted` are the `sort`
+  functions of the same name applied to x and `less(x[i], x[j])`). The new rules
+  alarmed on 9 kept refactorings when first run (`newDequeIterator(d)`, an iterator
+  object positioned in place, `Put` as a wrapper around `insert`, `copyTo(newA)` under
+  `!d.isEmpty()`, `copy(newA[len(head):], tail)`, `byIndex(x, less)`, a deferred-unlock
+  style with fewer release sites, two refactorings whose membership loop runs over
+  `sets[1:]`); each was removed by following the constructor / the wrapper / the call
+  site's guards, or by narrowing the rule to what the defect needs (an offset computed
+  from `len(d.a)`).
+
 A rule written after seeing a seed says so above; that is the honest reading of
-"caught": all 520 seeds are reported today; in rounds 2-9, 306 of 480 were
+"caught": all 580 seeds are reported today; in rounds 2-10, 348 of 540 were
 reported by the rules that existed when the seed arrived.
 
 ### 8.2 Controls
@@ -674,6 +740,7 @@ r6='/verif/tools/round6.md'
 r7='/verif/tools/round7.md'
 r8='/verif/tools/round8.md'
 r9='/verif/tools/round9.md'
-doc=doc.replace('ROUND4_PLACEHOLDER', (open(r4).read() if os.path.exists(r4) else '(round 4 results pending)') + '\n' + (open(r5).read() if os.path.exists(r5) else '') + '\n' + (open(r6).read() if os.path.exists(r6) else '') + '\n' + (open(r7).read() if os.path.exists(r7) else '') + '\n' + (open(r8).read() if os.path.exists(r8) else '') + '\n' + (open(r9).read() if os.path.exists(r9) else ''))
+r10='/verif/tools/round10.md'
+doc=doc.replace('ROUND4_PLACEHOLDER', (open(r4).read() if os.path.exists(r4) else '(round 4 results pending)') + '\n' + (open(r5).read() if os.path.exists(r5) else '') + '\n' + (open(r6).read() if os.path.exists(r6) else '') + '\n' + (open(r7).read() if os.path.exists(r7) else '') + '\n' + (open(r8).read() if os.path.exists(r8) else '') + '\n' + (open(r9).read() if os.path.exists(r9) else '') + '\n' + (open(r10).read() if os.path.exists(r10) else ''))
 open('/verif/DESIGN.md','w').write(doc)
 print(len(doc.splitlines()),'lines')
